@@ -91,6 +91,7 @@ class TipperSurvey(FEMSurvey, AirborneEMSurvey):
             )
 
         self._base_stations = base
+        base._receivers = self  # pylint: disable=protected-access
         self.edit_em_metadata({"Base stations": base.uid})
 
     def copy_from_extent(
